@@ -206,6 +206,17 @@ def _check_null_id_error_not_lost(w: World, sent_doc: Any, reply_text: Any, stri
         return   # refused or raised: the error did not get lost
     if via == 'send':
         resp = outcome[1]
+        # where the null-id entry itself ends up is open, but it must not displace a call: position k is call k
+        call_ids = [el['id'] for el in (sent_doc if isinstance(sent_doc, list) else [sent_doc]) if el.get('id') is not None]
+        for k, cid in enumerate(call_ids):
+            try:
+                pos_id = resp[k].id
+            except IndexError:
+                pos_id = '<missing>'
+            if not RC.same_id(pos_id, cid):
+                w.violate('C08.position', f'response at position {k} has id {pos_id!r}; call {k} was made with id {cid!r} '
+                          f'(a null-id entry in the reply must not displace the calls\' responses)', **ctx)
+                return
         try:
             resp.result
             lost = True
